@@ -125,6 +125,25 @@ theorem arrays_wellformed (archs : List ArchCfg) (hv : Valid archs) (req reqShar
         exact (hA t ht x hxt).1
       · rw [hpart, ← hsel]; exact gsel_nodup fr hwf
 
+/-- Index safety of the cursors (and the termination argument of the model's loops): every step of the
+range-for over an `ArchetypeGroup` indexes an existing filtered archetype, is non-empty and stays inside
+the selected entities of that archetype — so the fuel handed to the loops (the task / piece size) suffices. -/
+theorem pieces_in_bounds (archs : List ArchCfg) (hv : Valid archs) (req reqShared : List Nat)
+    (mode : Mode) (taskCount : Nat) :
+    ∀ t ∈ runTaskInfos mode (applyFilter req reqShared archs 0) taskCount,
+      ∀ p ∈ taskPieces (applyFilter req reqShared archs 0) t,
+        p.a < (applyFilter req reqShared archs 0).length ∧ 1 ≤ p.size ∧
+        p.e + p.size ≤ ((applyFilter req reqShared archs 0).getD p.a default).count := by
+  have hwf := applyFilter_wf req reqShared archs hv
+  intro t ht p hp
+  exact ((runTaskInfos_good mode _ hwf taskCount).2.1 t ht).2 p hp
+
+/-- with more tasks than entities the surplus tasks start one past the last filtered archetype: the
+constructor of `ArchetypeGroup` must not index `filtered_archetypes` there (pinned tree: it did; repaired by
+`patches/fix-c04-archetype-group-oob.diff`, the guard `AG.make` models) -/
+example : (runTaskInfos .parallel (applyFilter [0] [] exampleArchs 0) 7).map (·.firstArch) = [0, 0, 0, 1, 1, 1, 2]
+    ∧ (applyFilter [0] [] exampleArchs 0).length = 2 := by decide
+
 example : (runJob .parallel (applyFilter [0] [] exampleArchs 0) 2).map (·.arrays) =
     [[⟨0, 0, 2⟩, ⟨0, 2, 1⟩], [⟨3, 0, 2⟩, ⟨3, 4, 1⟩]] := by decide
 
